@@ -44,6 +44,8 @@ def expr(node, ren):
         return ren[n]
     if isinstance(node, ast.Constant) and isinstance(node.value, int) and not isinstance(node.value, bool):
         return "(%d : Rat)" % node.value
+    if isinstance(node, ast.BinOp) and isinstance(node.op, ast.FloorDiv):
+        return "(((%s / %s).floor : Int) : Rat)" % (expr(node.left, ren), expr(node.right, ren))
     if isinstance(node, ast.BinOp):
         op = {ast.Add: "+", ast.Sub: "-", ast.Mult: "*"}.get(type(node.op))
         if op is None:
@@ -208,6 +210,7 @@ def render():
 
     emit("clamp", "(low value high : ERat)", "ERat",
          lambda: function(standardiser._clamp, {"low": "low", "value": "value", "high": "high"}))
+    emit("floor", "(n base : Rat)", "Rat", lambda: function(standardiser._floor, {"n": "n", "base": "base"}))
     emit("linearRegulate", "(util alloc demand low high rate interval : Rat)", "Rat",
          lambda: function(LinearController.regulate,
                           {"target_utilisation": "util", "target_allocation": "alloc", "target_demand": "demand", "low_utilisation": "low",
